@@ -1,0 +1,63 @@
+//go:build verif
+
+// Contracts for package parser, read by the /verif VC generator (vcgo); only compiled with
+// -tags verif. //@ blocks are contracts; Go functions are pure specification functions.
+
+package parser
+
+// ---------------------------------------------------------------------------------------------
+// The lexer, abstractly. The ragel-generated scanner (8.7k lines of gotos) is not verified; its
+// contract below is ASSUMED (and exercised by a bounded conformance test, see /verif/DESIGN.md):
+// next() is a deterministic function of (data, p); it advances p unless at the end; EOF is
+// reported exactly at the end; an identifier token is non-empty, and a quoted one is closed.
+// ---------------------------------------------------------------------------------------------
+
+//@ type parser.lexer
+//@   invariant 0 <= self.p && self.p <= self.pe && self.pe == len(self.data) && 0 <= self.m && self.m <= self.pe
+
+//@ func parser.lexer.next
+//@   trusted
+//@   requires l != nil && inv(l)
+//@   ensures inv(l) && l.data == old(l.data) && l.pe == old(l.pe) && l.m == old(l.m)
+//@   ensures result == ufInt("lex.tok", old(l.data), old(l.p)) && l.p == ufInt("lex.end", old(l.data), old(l.p))
+//@   ensures l.p >= old(l.p) && (old(l.p) < l.pe ==> l.p > old(l.p))
+//@   ensures result >= tkInvalid && result <= tkEOS
+//@   ensures (result == tkEOF ==> l.p == l.pe) && (old(l.p) == l.pe ==> result == tkEOF)
+//@   ensures result == tkIdentifier ==> l.id == ufStr("lex.id", old(l.data), old(l.p)) && len(l.id) >= 1 && (sat(l.id, 0) == '"' ==> len(l.id) >= 2)
+//@   ensures result != tkIdentifier ==> l.id == old(l.id)
+//@   modifies l.p, l.id
+
+//@ func parser.lexer.init
+//@   requires l != nil
+//@   ensures l.p == 0 && l.pe == len(data) && l.data == data && l.m == old(l.m) && l.id == old(l.id)
+//@   modifies l.p, l.pe, l.data
+
+// ---------------------------------------------------------------------------------------------
+// C09 / C17: identifiers
+// ---------------------------------------------------------------------------------------------
+
+// IdentifierFromString: a leading double quote makes a quoted (case-sensitive) identifier whose name
+// is the text between the quotes; everything else is a case-insensitive name. Total: never panics.
+//@ func parser.IdentifierFromString [C09, C17]
+//@   replay verifReplayIdentifierFromString(id)
+//@   ensures quoted: len(id) >= 2 && sat(id, 0) == '"' ==> !result.ignoreCase && result.id == substr(id, 1, len(id) - 1)
+//@   ensures unquoted: len(id) == 0 || sat(id, 0) != '"' ==> result.ignoreCase && result.id == id
+//@   modifies nothing
+
+//@ func parser.Identifier.equal [C09]
+//@   ensures i.ignoreCase ==> result == strings.EqualFold(i.id, id)
+//@   ensures !i.ignoreCase ==> result == (i.id == id)
+//@   modifies nothing
+
+// verifSpecSystemTable: "local, peers, peers_v2 and the legacy schema_* tables".
+func verifSpecSystemTable(name Identifier) bool {
+	return name.equal("local") || name.equal("peers") || name.equal("peers_v2") ||
+		name.equal("schema_keyspaces") || name.equal("schema_columnfamilies") || name.equal("schema_columns") || name.equal("schema_usertypes")
+}
+
+//@ loop parser.isSystemTable #1
+//@   invariant forall(k, 0, rangeindex + 1, !name.equal(systemTables[k]))
+
+//@ func parser.isSystemTable [C09]
+//@   ensures result == verifSpecSystemTable(name)
+//@   modifies nothing
